@@ -61,6 +61,7 @@ type runner struct {
 	ptrs     map[string]bool
 	findings []finding
 	nextID   int64
+	check    *vlib.Check
 	conc     bool // concurrent mode: APQ state depends on the interleaving
 	deferred []finding
 }
@@ -184,6 +185,33 @@ func (rn *runner) judge(a Act, cr Concrete, resp Resp, seen []Seen, prev []AReq,
 	}
 }
 
+// fail ends the run on a harness-level problem (exit 2) - unless violations
+// were already observed, which are then reported first (exit 1): a server
+// that stops answering after a history that already produced wrong answers
+// is not an infrastructure problem.
+func (rn *runner) fail(format string, a ...any) {
+	rn.mu.Lock()
+	fs := rn.findings
+	rn.mu.Unlock()
+	if len(fs) > 0 && rn.check == nil && os.Getenv("C07_OUT") != "" {
+		// concurrent child: hand the findings to the parent
+		ob, _ := json.Marshal(concOutput{Stats: rn.st, Findings: fs})
+		_ = os.WriteFile(os.Getenv("C07_OUT"), ob, 0o644)
+		fmt.Fprintf(os.Stderr, "stopped early: "+format+"\n", a...)
+		os.Exit(0)
+	}
+	if len(fs) == 0 || rn.check == nil {
+		vlib.Infra(format, a...)
+	}
+	for _, f := range fs {
+		rn.check.Violate(f.Key, f.Detail, f.Scen)
+	}
+	fmt.Fprintf(os.Stderr, "stopped early: "+format+"\n", a...)
+	rn.check.AddTraces(rn.st.Histories)
+	rn.check.AddEvals(rn.st.Requests)
+	rn.check.Finish()
+}
+
 func labels(rs []AReq) []string {
 	out := make([]string, len(rs))
 	for i, r := range rs {
@@ -210,7 +238,7 @@ func (rn *runner) replay(h []step, where string, ls *liveServer) {
 		cr := concretise(s.Act.R, xreqOf(s.Act.R))
 		resp, seen, err := c.do(cr, id)
 		if err != nil {
-			vlib.Infra("%s: request %s: %v", where, s.Act.R.label(), err)
+			rn.fail("%s: request %s after %v: %v", where, s.Act.R.label(), labels(prev), err)
 		}
 		rn.judge(s.Act, cr, resp, seen, prev, where)
 		prev = append(prev, s.Act.R)
@@ -340,6 +368,7 @@ func main() {
 
 	// ---- fresh-server oracle for every request of every history (all Ps: it collects garbage twice per run)
 	rn := newRunner()
+	rn.check = c
 	prefill := func(h []step) {
 		for _, s := range h {
 			r := s.Act.R
